@@ -8,6 +8,7 @@ EVERY proof value, not only those a generator can produce.
 import AkdModel.CTrie
 import AkdModel.Thm.C17
 import AkdModel.Lemmas.TrieLemmas
+import AkdModel.Lemmas.TrieLabel
 namespace Akd.C05
 open Akd
 
@@ -24,32 +25,102 @@ def elements (c : Cfg) (t : CRoot) : List AzksElement :=
 
 def Leaves256 (t : CRoot) : Prop := ∀ lf ∈ t.leaves, lf.lbl.length = 256
 
+/-- ADDED HYPOTHESIS of the two non-membership theorems: the configuration's "empty label" marker
+is not the label of any bit string.  `Cfg.Lawful` only speaks about the hash functions, but
+`verify_nonmembership` treats a child whose label equals `empty_label()` as an empty slot; with a
+marker that collides with a real label both theorems are false (checked counterexamples at the end
+of this file).  Both real configurations satisfy it (`emptyLabelFresh_whatsappV1`,
+`emptyLabelFresh_experimental`): their marker has length 0 and non-zero bytes. -/
+def EmptyLabelFresh (c : Cfg) : Prop :=
+  ∀ bs : BitStr, bs.length ≤ 256 → NodeLabel.ofBits bs ≠ c.emptyLabel
+
+theorem emptyLabelFresh_whatsappV1 : EmptyLabelFresh Cfg.whatsappV1 :=
+  fun bs _ => Cfg.whatsappV1_emptyLabel_fresh bs
+
+theorem emptyLabelFresh_experimental : EmptyLabelFresh Cfg.experimental :=
+  fun bs _ => Cfg.experimental_emptyLabel_fresh bs
+
+/-! ## helper lemmas that mention `elements` (everything else is in `Lemmas/Trie*.lean`) -/
+
+theorem CTree.self_mem_elements (c : Cfg) (a : CTree) : a.element c ∈ CTree.elements c a := by
+  cases a <;> simp [CTree.elements]
+
+theorem CTree.sub_mem_elements (c : Cfg) {s a : CTree} (h : CTree.Sub s a) :
+    s.element c ∈ CTree.elements c a := by
+  induction h with
+  | refl => exact CTree.self_mem_elements c s
+  | left q r _ ih => simp [CTree.elements, ih]
+  | right q l _ ih => simp [CTree.elements, ih]
+
+/-- the three shapes of `CRoot.verifyMembership_cases` are all listed in `elements` -/
+theorem mem_elements_of_cases (c : Cfg) (t : CRoot) (π : MembershipProof)
+    (h : (π.label = NodeLabel.root ∧ π.hashVal = t.value c .withLeafEpoch) ∨
+      (∃ o, (o = t.l ∨ o = t.r) ∧
+        ((o = none ∧ π.label = c.emptyLabel ∧ π.hashVal = c.emptyNodeHash) ∨
+         (∃ a s, o = some a ∧ CTree.Sub s a ∧ π.label = NodeLabel.ofBits s.lbl ∧
+            π.hashVal = s.azks c .withLeafEpoch)))) :
+    (⟨π.label, π.hashVal⟩ : AzksElement) ∈ elements c t := by
+  rcases h with ⟨h1, h2⟩ | ⟨o, ho, ⟨rfl, h1, h2⟩ | ⟨a, s, rfl, hs, h1, h2⟩⟩
+  · rw [h1, h2]; exact List.mem_cons_self
+  · rw [h1, h2]
+    rcases ho with ho | ho
+    · simp [elements, ← ho, CRoot.element, CRoot.childLabel, CRoot.childValue]
+    · simp [elements, ← ho, CRoot.element, CRoot.childLabel, CRoot.childValue]
+  · rw [h1, h2]
+    have := CTree.sub_mem_elements c hs
+    rw [CTree.element] at this
+    rcases ho with ho | ho
+    · simp [elements, ← ho, this]
+    · simp [elements, ← ho, this]
+
+theorem root_value_ne_leaf (c : Cfg) (hc : c.Lawful) (t : CRoot) (v : Dig) (e : Nat) :
+    t.value c .withLeafEpoch ≠ c.leafHash v e := by
+  rcases CRoot.not_empty_cases t with he | he
+  · rw [CRoot.value_empty c _ t he]; exact (hc.leaf_ne_emptyRoot v e).symm
+  · rw [CRoot.value_eq_parent c _ t he]; exact (hc.leaf_ne_parent _ _ _ _ _ _).symm
+
 /-! ## completeness -/
 
 /-- the generated proof verifies, for every tree and every query label -/
 theorem membership_complete (c : Cfg) (t : CRoot) (x : BitStr) :
-    verifyMembership c (t.rootHash c) (t.genMembership c x) = true := by
-  sorry
+    verifyMembership c (t.rootHash c) (t.genMembership c x) = true :=
+  CRoot.verifyMembership_lcpProof c t x
 
 /-- for a member the generated proof is about that leaf and carries its true digest -/
 theorem membership_complete_leaf (c : Cfg) (t : CRoot) (hwf : t.WF) (lf : Leaf) (h : lf ∈ t.leaves) :
     (t.genMembership c lf.lbl).label = NodeLabel.ofBits lf.lbl ∧
-    (t.genMembership c lf.lbl).hashVal = c.leafHash lf.value lf.ep := by
-  sorry
+    (t.genMembership c lf.lbl).hashVal = c.leafHash lf.value lf.ep :=
+  CRoot.lcpProof_leaf c t hwf lf h
 
-/-- for a non-member the generated non-membership proof verifies -/
-theorem nonmembership_complete (c : Cfg) (hc : c.Lawful) (t : CRoot) (hwf : t.WF) (h256 : Leaves256 t)
+/-- for a non-member the generated non-membership proof verifies.
+
+STATEMENT CHANGED (two hypotheses added, counterexamples at the end of the file):
+* `hE : EmptyLabelFresh c` — see `EmptyLabelFresh`;
+* `hne : t ≠ CRoot.empty` — for the empty tree the root stores `empty_root_value`, which is not
+  the parent hash of two empty slots that `verify_nonmembership` recomputes, so the generated
+  proof is rejected (`nonmembership_complete_fails_empty`). -/
+theorem nonmembership_complete (c : Cfg) (_hc : c.Lawful) (hE : EmptyLabelFresh c)
+    (t : CRoot) (hwf : t.WF) (h256 : Leaves256 t) (hne : t ≠ CRoot.empty)
     (x : BitStr) (hx : x.length = 256) (hnot : ∀ lf ∈ t.leaves, lf.lbl ≠ x) :
     verifyNonMembership c (t.rootHash c) (t.genNonMembership c x) = true := by
-  sorry
+  refine CRoot.nonmembership_complete_core c hE t hwf h256 ?_ x hx hnot
+  rcases CRoot.not_empty_cases t with he | he
+  · exfalso
+    apply hne
+    obtain ⟨tl, tr⟩ := t
+    obtain ⟨h1, h2⟩ := he
+    simp only at h1 h2
+    subst h1 h2
+    rfl
+  · exact he
 
 /-! ## soundness (full strength, for the repaired verifiers) -/
 
 /-- an accepted membership proof speaks about a real element of the tree -/
 theorem membership_sound (c : Cfg) (hc : c.Lawful) (t : CRoot) (π : MembershipProof)
     (h : verifyMembership c (t.rootHash c) π = true) :
-    (⟨π.label, π.hashVal⟩ : AzksElement) ∈ elements c t := by
-  sorry
+    (⟨π.label, π.hashVal⟩ : AzksElement) ∈ elements c t :=
+  mem_elements_of_cases c t π (CRoot.verifyMembership_cases c hc t π h)
 
 /-- … in particular a leaf-shaped digest can only be proved for a real leaf, with its true
 value and insertion epoch -/
@@ -57,13 +128,28 @@ theorem membership_sound_leaf (c : Cfg) (hc : c.Lawful) (t : CRoot) (π : Member
     (v : Dig) (e : Nat) (hv : π.hashVal = c.leafHash v e)
     (h : verifyMembership c (t.rootHash c) π = true) :
     ∃ lf ∈ t.leaves, NodeLabel.ofBits lf.lbl = π.label ∧ lf.value = v ∧ lf.ep = e := by
-  sorry
+  rcases CRoot.verifyMembership_cases c hc t π h with
+    ⟨-, h2⟩ | ⟨o, ho, ⟨-, -, h2⟩ | ⟨a, s, rfl, hs, h1, h2⟩⟩
+  · exact absurd (h2.symm.trans hv) (root_value_ne_leaf c hc t v e)
+  · exact absurd (hv.symm.trans h2) (hc.leaf_ne_emptyNode v e)
+  · rw [hv] at h2
+    cases s with
+    | node q l r => exact absurd h2 (hc.leaf_ne_parent _ _ _ _ _ _)
+    | leaf q w f =>
+      obtain ⟨rfl, rfl⟩ := hc.leaf_inj _ _ _ _ h2
+      refine ⟨⟨q, v, e⟩, ?_, h1.symm, rfl, rfl⟩
+      have hm : (⟨q, v, e⟩ : Leaf) ∈ a.leaves := hs.leaves_subset (by simp [CTree.leaves])
+      exact CRoot.mem_leaves.mpr ⟨a, ho.elim (fun h => Or.inl h.symm) (fun h => Or.inr h.symm), hm⟩
 
-/-- an accepted non-membership proof is only possible for a label that is not a leaf -/
-theorem nonmembership_sound (c : Cfg) (hc : c.Lawful) (t : CRoot) (hwf : t.WF) (h256 : Leaves256 t)
+/-- an accepted non-membership proof is only possible for a label that is not a leaf.
+
+STATEMENT CHANGED: hypothesis `hE : EmptyLabelFresh c` added (counterexample
+`nonmembership_sound_fails_unfresh` at the end of the file). -/
+theorem nonmembership_sound (c : Cfg) (hc : c.Lawful) (hE : EmptyLabelFresh c)
+    (t : CRoot) (hwf : t.WF) (h256 : Leaves256 t)
     (π : NonMembershipProof) (h : verifyNonMembership c (t.rootHash c) π = true) :
-    ∀ lf ∈ t.leaves, NodeLabel.ofBits lf.lbl ≠ π.label := by
-  sorry
+    ∀ lf ∈ t.leaves, NodeLabel.ofBits lf.lbl ≠ π.label :=
+  CRoot.nonmembership_sound_core c hc hE t hwf h256 π h
 
 /-! ## the verifiers of the pinned commit were not sound (defects D1, D8) -/
 
@@ -71,14 +157,19 @@ theorem nonmembership_sound (c : Cfg) (hc : c.Lawful) (t : CRoot) (hwf : t.WF) (
 ANY claimed label. -/
 theorem membership_unbound_witness (c : Cfg) (t : CRoot) (x : NodeLabel) :
     Legacy.verifyMembership c (t.rootHash c) ⟨x, t.value c .withLeafEpoch, []⟩ = true := by
-  sorry
+  simp [Legacy.verifyMembership, foldUp_nil, CRoot.rootHash]
 
 /-- legacy soundness needs at least one sibling level -/
 theorem membership_sound_legacy_partial (c : Cfg) (hc : c.Lawful) (t : CRoot) (π : MembershipProof)
     (hne : π.siblingProofs ≠ [])
     (h : Legacy.verifyMembership c (t.rootHash c) π = true) :
     (⟨π.label, π.hashVal⟩ : AzksElement) ∈ elements c t := by
-  sorry
+  have h1 : (foldUp c π).1 = t.value c .withLeafEpoch := by
+    simp only [Legacy.verifyMembership, CRoot.rootHash, beq_iff_eq] at h
+    exact hc.root_inj _ _ h
+  rcases CRoot.sound_cases c hc t π h1 with ⟨hn, -⟩ | h'
+  · exact absurd hn hne
+  · exact mem_elements_of_cases c t π (Or.inr h')
 
 /-- D1: the 4-leaf tree {000, 001, 01, 1} and a forged non-membership proof for the MEMBER 000,
 anchored at the node "0" (not the deepest matching node, which is "00"). -/
@@ -99,16 +190,79 @@ theorem nonmembership_unsound_witness :
     Legacy.verifyNonMembership Cfg.whatsappV1 (d1Tree.rootHash Cfg.whatsappV1) (d1Forged Cfg.whatsappV1) = true ∧
     Legacy.verifyNonMembership Cfg.experimental (d1Tree.rootHash Cfg.experimental) (d1Forged Cfg.experimental) = true ∧
     (∃ lf ∈ d1Tree.leaves, NodeLabel.ofBits lf.lbl = (d1Forged Cfg.whatsappV1).label) := by
-  sorry
+  refine ⟨by decide +kernel, by decide +kernel,
+    ⟨[false,false,false], .raw [1], 1⟩, by decide +kernel, by decide +kernel⟩
 
 /-- the repaired verifier rejects that forgery -/
 theorem nonmembership_witness_rejected :
     verifyNonMembership Cfg.whatsappV1 (d1Tree.rootHash Cfg.whatsappV1) (d1Forged Cfg.whatsappV1) = false ∧
     verifyNonMembership Cfg.experimental (d1Tree.rootHash Cfg.experimental) (d1Forged Cfg.experimental) = false := by
-  sorry
+  refine ⟨by decide +kernel, by decide +kernel⟩
 
 /-! ## non-vacuity: a concrete tree meets the hypotheses -/
-example : d1Tree.WF := by
-  sorry
+example : d1Tree.WF := by decide +kernel
+
+/-! ## why the added hypotheses are needed (counterexamples to the statements without them) -/
+
+section Counterexamples
+
+private def z256 : BitStr := List.replicate 256 false
+private def z254 : BitStr := List.replicate 254 false
+
+/-- without `t ≠ CRoot.empty`: the proof generated on the empty tree is rejected, in both
+configurations (all other hypotheses of `nonmembership_complete` hold trivially) -/
+theorem nonmembership_complete_fails_empty :
+    verifyNonMembership Cfg.whatsappV1 (CRoot.empty.rootHash Cfg.whatsappV1)
+      (CRoot.empty.genNonMembership Cfg.whatsappV1 z256) = false ∧
+    verifyNonMembership Cfg.experimental (CRoot.empty.rootHash Cfg.experimental)
+      (CRoot.empty.genNonMembership Cfg.experimental z256) = false ∧
+    CRoot.empty.WF ∧ Leaves256 CRoot.empty ∧ z256.length = 256 ∧ (∀ lf ∈ CRoot.empty.leaves, lf.lbl ≠ z256) := by
+  refine ⟨by decide +kernel, by decide +kernel, by decide +kernel, ?_, by decide +kernel, ?_⟩ <;>
+    intro lf h <;> simp [CRoot.empty, CRoot.leaves] at h
+
+/-- a lawful configuration whose empty-label marker is the label of the 256-bit string `0…0` -/
+private def cUnfresh256 : Cfg := { Cfg.whatsappV1 with emptyLabel := NodeLabel.ofBits z256 }
+/-- a lawful configuration whose empty-label marker is the label of the bit string `0` -/
+private def cUnfresh1 : Cfg := { Cfg.whatsappV1 with emptyLabel := NodeLabel.ofBits [false] }
+
+private theorem cUnfresh256_lawful : cUnfresh256.Lawful := by
+  refine ⟨?_, ?_, ?_, ?_, ?_, ?_, ?_, ?_, ?_, ?_, ?_⟩ <;> intros <;>
+    simp_all [cUnfresh256, Cfg.whatsappV1]
+private theorem cUnfresh1_lawful : cUnfresh1.Lawful := by
+  refine ⟨?_, ?_, ?_, ?_, ?_, ?_, ?_, ?_, ?_, ?_, ?_⟩ <;> intros <;>
+    simp_all [cUnfresh1, Cfg.whatsappV1]
+
+/-- leaves `0^256`, `0^254·10`, `0^254·11`; the non-member `0^254·01` is anchored at the node
+`0^254`, whose left child is the leaf `0^256` = the marker, so the verifier takes it for an empty
+slot and recomputes the wrong anchor label -/
+private def tC : CRoot :=
+  CRoot.ofLeaves [⟨z256, .raw [1], 1⟩, ⟨z254 ++ [true, false], .raw [2], 1⟩, ⟨z254 ++ [true, true], .raw [3], 1⟩]
+
+/-- without `EmptyLabelFresh`: completeness fails for a lawful configuration -/
+theorem nonmembership_complete_fails_unfresh :
+    cUnfresh256.Lawful ∧ tC.WF ∧ (∀ lf ∈ tC.leaves, lf.lbl.length = 256) ∧ tC ≠ CRoot.empty ∧
+    (z254 ++ [false, true]).length = 256 ∧ (∀ lf ∈ tC.leaves, lf.lbl ≠ z254 ++ [false, true]) ∧
+    verifyNonMembership cUnfresh256 (tC.rootHash cUnfresh256)
+      (tC.genNonMembership cUnfresh256 (z254 ++ [false, true])) = false :=
+  ⟨cUnfresh256_lawful, by decide +kernel, by decide +kernel, by decide +kernel, by decide +kernel,
+    by decide +kernel, by decide +kernel⟩
+
+/-- leaves `0^256` and `01·0^254` below the node `0`, whose label is the marker -/
+private def tS : CRoot := CRoot.ofLeaves [⟨z256, .raw [1], 1⟩, ⟨[false, true] ++ z254, .raw [2], 1⟩]
+
+/-- a non-membership proof for the MEMBER `0^256`, anchored at the root -/
+private def forgedS : NonMembershipProof :=
+  ⟨NodeLabel.ofBits z256, NodeLabel.root, CRoot.element cUnfresh1 tS.l, CRoot.element cUnfresh1 tS.r,
+    ⟨NodeLabel.root, tS.value cUnfresh1 .withLeafEpoch, []⟩⟩
+
+/-- without `EmptyLabelFresh`: soundness fails for a lawful configuration -/
+theorem nonmembership_sound_fails_unfresh :
+    cUnfresh1.Lawful ∧ tS.WF ∧ (∀ lf ∈ tS.leaves, lf.lbl.length = 256) ∧
+    verifyNonMembership cUnfresh1 (tS.rootHash cUnfresh1) forgedS = true ∧
+    (∃ lf ∈ tS.leaves, NodeLabel.ofBits lf.lbl = forgedS.label) :=
+  ⟨cUnfresh1_lawful, by decide +kernel, by decide +kernel, by decide +kernel,
+    ⟨z256, .raw [1], 1⟩, by decide +kernel, by decide +kernel⟩
+
+end Counterexamples
 
 end Akd.C05
